@@ -90,7 +90,7 @@ theorem fwd_schemaExtension (s : SchemaDef) (hok : SchemaExtOK s) (n : Nat) (a :
 def DirectiveDefOK (d : DirectiveDef) : Prop :=
   (∀ a ∈ d.args, ArgDefOK a) ∧ d.locations ≠ [] ∧ ∀ l ∈ d.locations, l ∈ Gql.Grammar.directiveLocationNames
 
-theorem fwd_directiveDefinition {dk : Kind} (hdk : DescKind dk) (d : DirectiveDef) (hok : DirectiveDefOK d) (n : Nat) (a : AS)
+theorem fwd_directiveDefinition {dk : Bytes → Kind} (hdk : ∀ d, DescKind (dk d)) (d : DirectiveDef) (hok : DirectiveDefOK d) (n : Nat) (a : AS)
     (σ' : Stream)
     (hs : Starts a.σ (tKw "directive" :: tP .at :: tName d.name :: printArgDefsK dk d.args
       ++ (if d.repeatable then [tKw "repeatable"] else []) ++ tKw "on" :: printSep .pipe d.locations) σ')
@@ -204,7 +204,7 @@ theorem erasePos_add (doc : SchemaDoc) (it : SItem) : (doc.add it).erasePos = do
 
 /-- the first token of a printed item: a description or a keyword; it satisfies the follow
     condition of the item before it -/
-theorem folItem_of_item {dk : Kind} (hdk : DescKind dk) (it : SItem) {σ σ' : Stream} (h : Starts σ (printItemK dk it) σ') :
+theorem folItem_of_item {dk : Bytes → Kind} (hdk : ∀ d, DescKind (dk d)) (it : SItem) {σ σ' : Stream} (h : Starts σ (printItemK dk it) σ') :
     FolItem σ ∧ σ.head.kind ≠ .eof := by
   have key : ∀ (desc : Bytes) (kw : Tok) (rest : List Tok), kw.kind = .name → kw.value ≠ kwImplements →
       Starts σ (printDescK dk desc ++ kw :: rest) σ' → FolItem σ ∧ σ.head.kind ≠ .eof := by
@@ -217,8 +217,8 @@ theorem folItem_of_item {dk : Kind} (hdk : DescKind dk) (it : SItem) {σ σ' : S
       exact ⟨⟨by simp [hkk], by simp [hkk], by simp [hkk], by simp [hkk], by simp [hkk], by simp [hkk], by simp [hkk],
         fun hc => hv (hvv ▸ hc.2)⟩, by simp [hkk]⟩
     · simp only [printDescK, if_neg hd, List.cons_append, List.nil_append] at hst
-      have hkk : σ.head.kind = dk := hst.head_kind
-      rcases hdk with h' | h' <;> rw [h'] at hkk <;>
+      have hkk : σ.head.kind = dk desc := hst.head_kind
+      rcases hdk desc with h' | h' <;> rw [h'] at hkk <;>
         exact ⟨⟨by simp [hkk], by simp [hkk], by simp [hkk], by simp [hkk], by simp [hkk], by simp [hkk], by simp [hkk],
           noImplements_of_kind (by simp [hkk])⟩, by simp [hkk]⟩
   cases it with
@@ -236,7 +236,7 @@ theorem folItem_of_eof {σ : Stream} (h : σ.head.kind = .eof) : FolItem σ :=
   ⟨by simp [h], by simp [h], by simp [h], by simp [h], by simp [h], by simp [h], by simp [h], noImplements_of_kind (by simp [h])⟩
 
 /-- `extend …` -/
-theorem fwd_typeSystemExtension {dk : Kind} (hdk : DescKind dk) (it : SItem) (hok : ItemOK it)
+theorem fwd_typeSystemExtension {dk : Bytes → Kind} (hdk : ∀ d, DescKind (dk d)) (it : SItem) (hok : ItemOK it)
     (hext : (∃ s, it = .schemaExt s) ∨ (∃ d, it = .extension d)) (n : Nat) (doc : SchemaDoc) (a : AS) (σ' : Stream)
     (hs : Starts a.σ (printItemK dk it) σ') (hfol : FolItem σ') :
     Fwd (parseTypeSystemExtension n doc) a (fun y a' => y.erasePos = doc.erasePos.add it.norm ∧ a'.σ = σ') := by
@@ -341,7 +341,7 @@ theorem schemaDocLoop_succ (m n : Nat) (doc : SchemaDoc) :
       else pure doc) := rfl
 
 /-- one iteration of the loop up to the dispatch: the description is read, the keyword is peeked -/
-theorem fwd_loopStep {dk : Kind} (hdk : DescKind dk) (m n : Nat) (doc : SchemaDoc) (a : AS) (desc : Bytes) (kw : Tok)
+theorem fwd_loopStep {dk : Bytes → Kind} (hdk : ∀ d, DescKind (dk d)) (m n : Nat) (doc : SchemaDoc) (a : AS) (desc : Bytes) (kw : Tok)
     (body : List Tok) (σm : Stream) (hkw : kw.kind = .name) (hs : Starts a.σ (printDescK dk desc ++ kw :: body) σm)
     (R : SchemaDoc → AS → Prop)
     (hrest : ∀ (has : Bool) (a5 : AS), (has = true → desc ≠ []) → Starts a5.σ (kw :: body) σm →
@@ -356,7 +356,7 @@ theorem fwd_loopStep {dk : Kind} (hdk : DescKind dk) (m n : Nat) (doc : SchemaDo
     rw [hd1.firstKind, firstKind_descK]
     split
     · rw [hkd]; decide
-    · rcases hdk with h | h <;> rw [h] <;> decide
+    · rcases hdk desc with h | h <;> rw [h] <;> decide
   rw [schemaDocLoop_succ]
   refine Fwd.bind (fwd_peek a) ?_
   rintro t a1 ⟨rfl, rfl⟩
@@ -375,7 +375,7 @@ theorem fwd_loopStep {dk : Kind} (hdk : DescKind dk) (m n : Nat) (doc : SchemaDo
   simp only [hσ3, hvd]
   exact hrest has _ hhas (by simpa [hσ3] using hd2)
 
-theorem fwd_schemaDocLoop {dk : Kind} (hdk : DescKind dk) (m : Nat) : ∀ (items : List SItem), (∀ it ∈ items, ItemOK it) →
+theorem fwd_schemaDocLoop {dk : Bytes → Kind} (hdk : ∀ d, DescKind (dk d)) (m : Nat) : ∀ (items : List SItem), (∀ it ∈ items, ItemOK it) →
     ∀ (n : Nat) (doc : SchemaDoc) (a : AS) (σ' : Stream), Starts a.σ (items.flatMap (printItemK dk)) σ' → σ'.head.kind = .eof →
       Fwd (schemaDocLoop m n doc) a (fun d a' =>
         d.erasePos = (items.map SItem.norm).foldl SchemaDoc.add doc.erasePos ∧ a'.σ = σ')
@@ -514,7 +514,7 @@ theorem setBI_norm (b : Bool) (it : SItem) : (it.norm).setBI b = (it.erasePos).s
     printed items (descriptions as tokens of kind `dk`), `ParseSchema` accepts `inp` and returns
     the items, each in its list and in item order, up to positions (and with the source's
     `BuiltIn` flag) -/
-theorem parseSchemaSrc_items {dk : Kind} (hdk : DescKind dk) (items : List SItem) (hok : ∀ it ∈ items, ItemOK it)
+theorem parseSchemaSrc_items {dk : Bytes → Kind} (hdk : ∀ d, DescKind (dk d)) (items : List SItem) (hok : ∀ it ∈ items, ItemOK it)
     (src : Nat) (b : Bool) (inp : Bytes) (htok : tokensOf inp = some (items.flatMap (printItemK dk))) :
     ∃ d', parseSchemaSrc 0 src b inp = .ok d' ∧
       d'.erasePos = (setBuiltIn b (items.foldl SchemaDoc.add SchemaDoc.empty)).erasePos := by
@@ -654,12 +654,12 @@ theorem parseSchemaSrc_print (d : SchemaDoc) (hp : PrintableSchema d) (src : Nat
   obtain ⟨hok, s1, s2, s3, s4, s5⟩ := hp
   have hitems : ∀ it ∈ sourceOrderS d, ItemOK it := fun it hit =>
     mem_itemsOf hok it ((List.mergeSort_perm _ _).mem_iff.1 hit)
-  have hflat : (sourceOrderS d).flatMap (printItemK .string) = printSchema d := by
+  have hflat : (sourceOrderS d).flatMap (printItemK (fun _ => .string)) = printSchema d := by
     rw [printSchema_sourceOrder]
     simp only [List.flatMap_def]
     congr 2
     exact funext printItemK_string
-  obtain ⟨d', h1, h2⟩ := parseSchemaSrc_items (.inl rfl) (sourceOrderS d) hitems src b inp (by rw [hflat]; exact htok)
+  obtain ⟨d', h1, h2⟩ := parseSchemaSrc_items (fun _ => .inl rfl) (sourceOrderS d) hitems src b inp (by rw [hflat]; exact htok)
   rw [sourceOrderS_foldl d s1 s2 s3 s4 s5] at h2
   exact ⟨d', h1, h2⟩
 
